@@ -24,7 +24,9 @@ def check(tier, seed):
                       "that commutes with products, adjoints and the block structure; it commutes with the Sylvester solver iff the implicit solver meets its contract",
                       "A-SC: scipy aslinearoperator / _ProductLinearOperator / _SumLinearOperator / _AdjointLinearOperator honour the LinearOperator protocol; sparse LU "
                       "factorisation solves exactly (rounding not modelled)"]
-    d.not_decided += ["KPM clause (tolerance proportional to the requested accuracy): convergence of the Chebyshev expansion is not decided; bounded battery of C16 only",
+    d.not_decided += ["KPM clause (tolerance proportional to the requested accuracy): the loop-exit postcondition of kpm.greens_function is proved for any number of iterations "
+                      "(on return without a RuntimeWarning the residual of the returned vector is <= atol); that the Chebyshev expansion converges, and how the residual tolerance "
+                      "propagates to H_tilde, is not decided (bounded battery of C16 / C04 only)",
                       "dtype mixtures (numpy promotion rules)",
                       "solve_sylvester_KPM, direct_greens_function / _constrain_matrix and _group_close_energies internals (bounded battery of C16); solve_sylvester_direct is under a "
                       "structural contract: every level is solved with the Green's function built for a member of its own degeneracy group and that group's kernel columns, row k of "
